@@ -26,7 +26,11 @@ Observed and compared:
 
 Input classes beyond the set-up itself: the storage type of the target / weight files (float64, float32, integer
 frames) and the way the set-up was declared (at construction, or re-declared through the public properties of the
-Calibration object before the run; the oracle always uses the values last declared when the run starts).
+Calibration object before the run; the oracle always uses the values last declared when the run starts), and the
+history of the session: in 30 % of the valid set-ups the same file names were used before (a previous set-up was
+configured and evaluated / run on them, with brand-new objects or with the same Calibration object), then the target
+and / or weight files were written again under the same names with other content.  The declared data are the content
+of the declared files when the run starts.
 """
 from __future__ import annotations
 
@@ -53,7 +57,10 @@ RULE = ("random calibration set-ups: 1-3 target files (npy/fits/txt, datacubes n
         "int64), weight maps alike, weight vectors of floats or integers; the set-up declared at once when the "
         "Calibration object is created, or created with other values and (45 %) partly re-declared through the public "
         "properties before the run (fit ranges, weights, weight / target files, input arguments, fitness function, result "
-        "type, pipeline seed, number of evolutions); every case but the "
+        "type, pipeline seed, number of evolutions); 30 % of the valid set-ups come with a session history: the same "
+        "target and/or weight file names were used by a previous set-up of the same process (problem built and evaluated, "
+        "or a complete run_mode; new objects or the same Calibration object used again) and the files were then "
+        "re-written under the same names with other content; every case but the "
         "'absent' class is non-trivial; distinct = distinct case specifications")
 ASSUMPTIONS = [
     "the probe stands for an arbitrary deterministic pipeline: fitness bookkeeping does not depend on what the model does",
@@ -65,6 +72,8 @@ ASSUMPTIONS = [
     "is only generated together with a declared seed (without one nothing is reproducible and nothing could be judged)",
     "'declared' = the value last given for an option when the run starts: a value assigned through the public property "
     "of the Calibration object after its creation replaces the one given at construction",
+    "the declared data are the content of the declared target / weight files when the run starts: a file written again "
+    "under the same name between two runs of one session counts with its new content",
     "a calibration that pygmo itself aborts under an NLopt solver (next start point one ulp outside the box) is counted, "
     "not judged",
 ]
@@ -80,6 +89,8 @@ REQUIRED_COUNTERS = [
     "algo_sade_finished", "algo_sga_finished", "algo_nlopt_finished", "monotone_pairs_checked_nlopt",
     "integer_targets_fractional_weights_compared", "redeclared_target_fit_range_champion_compared",
     "redeclared_result_fit_range_champion_compared",
+    "history_rewritten_target_files_direct_compared", "history_rewritten_target_files_champion_compared",
+    "history_rewritten_weight_files_compared", "history_previous_runs_compared", "history_same_object_compared",
 ]
 TIMEOUT = {"quick": 900, "thorough": 5400}
 LEVEL_TEXT = ("Exploration by runtime monitoring: generated calibration set-ups are evaluated by the real fitting problem "
@@ -469,6 +480,7 @@ def gen_case(rng, kind: str, g: int) -> dict:
     case["pseed"] = rng.randint(0, 2 ** 31 - 1) if (case["noise"] or rng.random() < 0.15) else None
     gen_storage(rng, case)
     gen_redeclaration(rng, case)
+    gen_history(rng, case)
     return case
 
 
@@ -532,6 +544,25 @@ def gen_redeclaration(rng, case: dict) -> None:
     order = list(ctor)
     rng.shuffle(order)
     case["ctor"], case["redeclared"] = ctor, order
+
+
+def gen_history(rng, case: dict) -> None:
+    """What the session did before with the same file names.  case['history'] is None (fresh names) or describes a
+    previous set-up of the same process: it named the same target and / or weight files ('shared'), whose content
+    then was another one (drawn from 'dseed'); it was evaluated through a problem built from it or run with
+    pyxel.run_mode ('how'), decision vector at the fractions 'u' of the box; afterwards the files were written again
+    under the same names.  'same_object': the declared run uses the Calibration object of the previous one again
+    (files that got another name are named again through the public property) instead of brand-new objects."""
+    case["history"] = None
+    if case["cls"] not in VALID_CLASSES or rng.random() >= 0.3:
+        return
+    shared = rng.choice(["targets", "weights", "both", "both"]) if case["wk"] == "files" else "targets"
+    how = "run_mode" if case["kind"] == "calib" and rng.random() < 0.35 else "problem"
+    same = rng.random() < 0.3
+    case["history"] = {"dseed": rng.randint(0, 2 ** 31), "shared": shared, "how": how, "same_object": same,
+                       "u": [round(rng.random(), 6) for _ in range(3)]}
+    if same:                                                   # one object, declared once
+        case["ctor"], case["redeclared"] = {}, []
 
 
 def stale_case(case: dict, fields=None) -> dict:
@@ -629,8 +660,10 @@ def draw_frame(nrg, shape, dtype: str, nan_cells: int = 0, weight: bool = False)
     return arr
 
 
-def materialise(case: dict, tmp: str, tag: str) -> dict:
-    """Write target / weight files; return the arrays the oracle uses (what was written)."""
+def materialise(case: dict, tmp: str, tag: str, ttag: str | None = None, wtag: str | None = None) -> dict:
+    """Write target / weight files; return the arrays the oracle uses (what was written).
+    `ttag` / `wtag`: name stems of the declared target / weight files when they differ from `tag`."""
+    ttag, wtag = ttag or tag, wtag or tag
     nrg = np.random.default_rng(case["dseed"])
     shape2 = (case["trows"], case["tcols"])
     shape = (case["ttimes"], *shape2) if case["multi"] else shape2
@@ -638,12 +671,12 @@ def materialise(case: dict, tmp: str, tag: str) -> dict:
     for i in range(case["ntar"]):
         arr = draw_frame(nrg, shape, case["tdtypes"][i], case["nan_cells"])
         data["targets"].append(arr)
-        data["tpaths"].append(write_array(os.path.join(tmp, f"t_{tag}_{i}"), arr, case["fmt"], case["delim"]))
+        data["tpaths"].append(write_array(os.path.join(tmp, f"t_{ttag}_{i}"), arr, case["fmt"], case["delim"]))
     if case["wk"] == "files":
         for i in range(case["ntar"]):
             w = draw_frame(nrg, shape, case["wdtype"], weight=True)
             data["weights"].append(w)
-            data["wpaths"].append(write_array(os.path.join(tmp, f"w_{tag}_{i}"), w, case["wfmt"], case["delim"]))
+            data["wpaths"].append(write_array(os.path.join(tmp, f"w_{wtag}_{i}"), w, case["wfmt"], case["delim"]))
     # ---- the files named when the object was created, when they are re-declared afterwards
     if "target_data_path" in case["ctor"]:
         data["ctor_targets"], data["ctor_tpaths"] = [], []
@@ -687,7 +720,18 @@ def option_values(c: dict, d: dict, as_paths: bool) -> dict:
     return v
 
 
-def make_objects(case: dict, data: dict):
+def make_objects(case: dict, data: dict, reuse=None):
+    """Calibration object, detector and pipeline of the set-up.  `reuse`: the Calibration object of the previous run of
+    the session, which declared the same set-up; only files that have another name now are named again."""
+    if reuse is not None:
+        declared = option_values(case, data, as_paths=True)
+        prev = data["previous"]
+        if [str(x) for x in prev["tpaths"]] != [str(x) for x in data["tpaths"]]:
+            reuse.target_data_path = declared["target_data_path"]
+        if case["wk"] == "files" and [str(x) for x in prev["wpaths"]] != [str(x) for x in data["wpaths"]]:
+            reuse.weights_from_file = declared["weights_from_file"]
+        detector, pipeline = make_detector_pipeline(case)
+        return reuse, detector, pipeline
     from pyxel.calibration import Algorithm, Calibration
     from pyxel.exposure import Readout
     from pyxel.observation import ParameterValues
@@ -759,6 +803,86 @@ def resimulated_noise(rec, case: dict):
         return False
     rec.count("noise_references_resimulated")
     return [e[5] for e in entries]
+
+
+def decision_at(case: dict, us: list) -> list:
+    """Decision vector at the fractions `us` (cycled) of the box."""
+    out, j = [], 0
+    for par in case["layout"]:
+        for lo, hi in (par["bounds"] if par["name"] == "q" else par["bounds"][:1]):
+            if par["log"]:
+                lo, hi = float(np.log10(lo)), float(np.log10(hi))
+            out.append(lo + us[j % len(us)] * (hi - lo))
+            j += 1
+    return out
+
+
+def run_previous(rec, index, case: dict, tag: str):
+    """The previous run of the session (case['history']): write the files with their previous content, configure the
+    same set-up on them and evaluate it (judged like any other run).  Returns (what was written, Calibration object)."""
+    h = case["history"]
+    prev = dict(case, dseed=h["dseed"], ctor={}, redeclared=[], history=None)
+    ttag = tag if h["shared"] in ("targets", "both") else tag + "p"
+    wtag = tag if h["shared"] in ("weights", "both") else tag + "p"
+    pdata = materialise(prev, rec.tmp, tag, ttag, wtag)
+    cal = None
+    log_reset()
+    try:
+        cal, detector, pipeline = make_objects(prev, pdata)
+        if h["how"] == "run_mode":
+            import pyxel
+            tree = pyxel.run_mode(mode=cal, detector=detector, pipeline=pipeline, with_inherited_coords=case["inherited"])
+            rec.count("probe_calls", log_len())
+            pdata["noise"] = resimulated_noise(rec, prev)
+            if pdata["noise"] is not False and check_champions(rec, prev, pdata, tree, index) is not None:
+                rec.count("history_previous_runs_compared")
+        else:
+            problem = make_problem(cal, detector, pipeline, case["inherited"])
+            x = decision_at(case, h["u"])
+            got = problem.fitness(np.array(x, dtype=float))
+            rec.count("probe_calls", log_len())
+            pdata["noise"] = resimulated_noise(rec, prev)
+            if pdata["noise"] is not False:
+                p, q = oracle_split(case["layout"], x, from_decision=True)
+                got = float(np.asarray(got, dtype=float).ravel()[0]) if np.size(got) == 1 else float("nan")
+                want = oracle_fitness(prev, pdata, p, q)
+                if close(got, want):
+                    rec.count("history_previous_runs_compared")
+                else:
+                    fitness_mismatch(rec, prev, pdata, got, want, p, q, "direct", f"decision={x} (previous run of the session)", index)
+    except Exception as e:  # noqa: BLE001 -- judged by the cases without a history; here only the history matters
+        rec.count("history_previous_run_raised")
+        rec.observe("history_previous_run_exception", short_exc(e)[:160])
+    finally:
+        log_reset()
+    return pdata, cal
+
+
+def with_history(rec, index, case: dict, tag: str):
+    """Files of the set-up (after the previous run of the session, if any) -> (data, Calibration object to use again)."""
+    if not case.get("history"):
+        return materialise(case, rec.tmp, tag), None
+    pdata, cal = run_previous(rec, index, case, tag)
+    data = materialise(case, rec.tmp, tag)                     # written again under the same names
+    data["previous"] = {k: pdata[k] for k in ("targets", "weights", "tpaths", "wpaths")}
+    rec.observe("histories", f"{case['kind']}:{case['history']['how']}:{case['history']['shared']}:"
+                             f"{'same-object' if case['history']['same_object'] else 'new-objects'}")
+    return data, (cal if case["history"]["same_object"] else None)
+
+
+def previous_content(case: dict, data: dict) -> list:
+    """[(what, data with the previous content of the re-written files)] for the classification of a mismatch."""
+    h, prev = case.get("history"), data.get("previous")
+    if not h or not prev:
+        return []
+    out = []
+    if h["shared"] in ("targets", "both"):
+        out.append(("target", dict(data, targets=prev["targets"])))
+    if h["shared"] in ("weights", "both"):
+        out.append(("weight", dict(data, weights=prev["weights"])))
+    if h["shared"] == "both":
+        out.append(("target and weight", dict(data, targets=prev["targets"], weights=prev["weights"])))
+    return out
 
 
 def make_problem(cal, detector, pipeline, inherited: bool):
@@ -869,6 +993,14 @@ def count_classes(rec, case: dict, what: str) -> None:
         rec.observe("weight_storage", f"{case['wfmt']}:{case['wdtype']}")
     for f in case["ctor"]:
         rec.count(f"redeclared_{f}_{what}_compared")
+    h = case.get("history")
+    if h:
+        if h["shared"] in ("targets", "both"):
+            rec.count(f"history_rewritten_target_files_{what}_compared")
+        if h["shared"] in ("weights", "both"):
+            rec.count("history_rewritten_weight_files_compared")
+        if h["same_object"]:
+            rec.count("history_same_object_compared")
 
 
 def fitness_mismatch(rec, case: dict, data: dict, got: float, want: float, p, q, what: str, extra: str, index) -> None:
@@ -894,6 +1026,17 @@ def fitness_mismatch(rec, case: dict, data: dict, got: float, want: float, p, q,
             extra = f"{extra}; equals the figure of merit with the value(s) of {fields} given at construction " \
                     f"({ {f: case['ctor'][f] for f in fields} }) instead of the declared one(s)"
             break
+    # files written again under the same names since the previous run: is it the figure of merit of their old content?
+    for which, old_data in previous_content(case, data):
+        try:
+            old = oracle_fitness(case, old_data, p, q)
+        except Exception:  # noqa: BLE001
+            continue
+        if close(got, old) and not close(want, old):
+            mech = f"C11:declared:file-rewritten-between-runs:previous-content-used:{what}"
+            extra = f"{extra}; equals the figure of merit on the content that the {which} file(s) had during the " \
+                    f"previous run of the session, not on their content when this run started"
+            break
     alarm(rec, mech, f"{what} fitness {got!r} but the recomputation of {case['fn']} over {case['ntar']} target(s) gives "
                      f"{want!r} (p={p}, q={q}) {extra}", case, index)
 
@@ -902,7 +1045,8 @@ def signature(case: dict) -> list:
     return [case[k] for k in ("kind", "rows", "cols", "trows", "tcols", "multi", "times", "ntar", "ks", "cls", "rfr",
                               "tfr", "fn", "free", "wk", "result_type", "fmt", "inherited", "noise", "tdtypes")] + \
            [[(p["name"], p["log"], p["shared"]) for p in case["layout"]], case["pseed"] is not None,
-            sorted((case.get("algo") or {}).items()), sorted(case["ctor"])]
+            sorted((case.get("algo") or {}).items()), sorted(case["ctor"]),
+            [case["history"][k] for k in ("how", "shared", "same_object")] if case.get("history") else None]
 
 
 # =============================================================================== (a) + (e): direct cases
@@ -931,13 +1075,13 @@ def judge_invalid(rec, case: dict, outcome: str, detail: str, index) -> None:
 
 
 def run_direct(rec, index, case: dict, rng, n_eval: int) -> None:
-    data = materialise(case, rec.tmp, f"d{index}")
+    data, reuse = with_history(rec, index, case, f"d{index}")
     rec.count("direct_cases")
     rec.observe("range_classes_direct", f"{ro_name(case)}:{case['cls']}")
     log_reset()
     problem, exc = None, None
     try:
-        cal, detector, pipeline = make_objects(case, data)
+        cal, detector, pipeline = make_objects(case, data, reuse)
         problem = make_problem(cal, detector, pipeline, case["inherited"])
     except Exception as e:  # noqa: BLE001
         exc = e
@@ -1075,6 +1219,15 @@ def nan_equal(a: np.ndarray, b: np.ndarray) -> bool:
     return a.shape == b.shape and bool(np.array_equal(a, b, equal_nan=True))
 
 
+def is_previous_content(case: dict, data: dict, k: int, got, rng6) -> bool:
+    """Is `got` the content that target file k had during the previous run of the session (restricted to rng6)?"""
+    h, prev = case.get("history"), data.get("previous")
+    if got is None or not h or not prev or h["shared"] not in ("targets", "both"):
+        return False
+    old = prev["targets"][k]
+    return nan_equal(got, region(old, rng6) if rng6 is not None else old)
+
+
 def check_nodes(rec, case: dict, data: dict, tree, par: np.ndarray, index) -> None:
     """(c) simulated data of the last champions and the target nodes."""
     n_isl, n_proc = case["islands"], case["ntar"]
@@ -1130,6 +1283,8 @@ def check_nodes(rec, case: dict, data: dict, tree, par: np.ndarray, index) -> No
                     mech = "C11:simulated-target:shifted-2d:misaligned"
                 else:
                     mech = "C11:simulated-target:single-readout:aligned-ranges:differs"
+                if is_previous_content(case, data, k, got, t6):
+                    mech = "C11:declared:file-rewritten-between-runs:previous-content-used:simulated-target"
                 alarm(rec, mech, f"/simulated/target[processor={k}] differs from target file {k} restricted to {case['tfr']}: "
                                  f"got {None if got is None else np.asarray(got).ravel()[:6].tolist()} "
                                  f"expected {want.ravel()[:6].tolist()}", case, index)
@@ -1151,7 +1306,10 @@ def check_nodes(rec, case: dict, data: dict, tree, par: np.ndarray, index) -> No
             if got is not None and got.ndim == want.ndim + 1 and got.shape[0] == 1:
                 got = got[0]
             if got is None or not nan_equal(got, want):
-                alarm(rec, f"C11:full-size-target:{ro_name(case)}:differs",
+                mech = f"C11:full-size-target:{ro_name(case)}:differs"
+                if is_previous_content(case, data, k, got, None):
+                    mech = "C11:declared:file-rewritten-between-runs:previous-content-used:full-size-target"
+                alarm(rec, mech,
                       f"/full_size/target[processor={k}] (shape {None if got is None else got.shape}) is not the full target "
                       f"file {k} (shape {want.shape})", case, index)
                 break
@@ -1161,7 +1319,7 @@ def check_nodes(rec, case: dict, data: dict, tree, par: np.ndarray, index) -> No
 def run_calib(rec, index, case: dict) -> None:
     import pyxel
 
-    data = materialise(case, rec.tmp, f"c{index}")
+    data, reuse = with_history(rec, index, case, f"c{index}")
     rec.count("calibration_cases")
     rec.observe("range_classes_calib", f"{ro_name(case)}:{case['cls']}")
     rec.observe("algorithms", case["algo"]["type"] + (":{nlopt_solver}:select-{nlopt_selection}:replace-{replacement}"
@@ -1169,7 +1327,7 @@ def run_calib(rec, index, case: dict) -> None:
     log_reset()
     tree, exc = None, None
     try:
-        cal, detector, pipeline = make_objects(case, data)
+        cal, detector, pipeline = make_objects(case, data, reuse)
         tree = pyxel.run_mode(mode=cal, detector=detector, pipeline=pipeline, with_inherited_coords=case["inherited"])
     except Exception as e:  # noqa: BLE001
         exc = e
